@@ -24,19 +24,20 @@ func VerifC19EncryptDecrypt() {
 	verifAssert(err == nil, "key store from valid entropy")
 	_, kp0, err := ks.DeriveForIndexPath(0)
 	verifAssert(err == nil && ks.BaseAddress == kp0.Address, "base address is the index-0 address")
-	pw := verifNondetString("password", verifNondetLen("len(password)", 0, 2))
+	// password lengths 0..2 and lengths just past the usual fixed buffer sizes (a staged or truncated password)
+	pw := verifNondetString("password", c19PwLen("len(password)"))
 	kf, err := ks.Encrypt(pw)
 	verifAssert(err == nil && kf.BaseAddress == ks.BaseAddress, "the file records the base address")
 	verifAssert(kf.Version == cryptoStoreVersion && kf.Crypto.CipherName == aesMode && kf.Crypto.KDF == argonName, "format tags")
 
-	switch verifNondetLen("scenario (0 same password, 1 other password, 2 ciphertext byte changed, 3 nonce byte changed, 4 salt byte changed)", 0, 4) {
+	switch verifNondetLen("scenario (0 same password, 1 other password, 2 ciphertext byte changed, 3 nonce byte changed, 4 salt byte changed, 5 nonce / ciphertext / salt length changed)", 0, 5) {
 	case 0:
 		ks2, err := kf.Decrypt(pw)
 		verifReach("round trip", true)
 		verifAssert(err == nil, "the right password decrypts")
 		verifAssert(bytes.Equal(ks2.Entropy, entropy) && ks2.Mnemonic == ks.Mnemonic && bytes.Equal(ks2.Seed, ks.Seed) && ks2.BaseAddress == ks.BaseAddress, "exactly the original entropy, mnemonic, seed and base address")
 	case 1:
-		pw2 := verifNondetString("other password", verifNondetLen("len(other password)", 0, 2))
+		pw2 := verifNondetString("other password", c19PwLen("len(other password)"))
 		verifAssume(pw2 != pw, "a different password")
 		_, err := kf.Decrypt(pw2)
 		verifReach("wrong password", true)
@@ -63,7 +64,35 @@ func VerifC19EncryptDecrypt() {
 		_, err := kf.Decrypt(pw)
 		verifReach("tampered salt", true)
 		verifAssert(err == ErrWrongPassword, "a changed salt is refused")
+	case 5:
+		switch verifNondetLen("what is cut or extended (0 nonce cut, 1 nonce extended, 2 ciphertext cut to its tag, 3 ciphertext emptied, 4 salt cut, 5 salt emptied)", 0, 5) {
+		case 0:
+			kf.Crypto.AesNonce = kf.Crypto.AesNonce[:11]
+		case 1:
+			kf.Crypto.AesNonce = append(kf.Crypto.AesNonce, verifNondetU8("extra nonce byte"))
+		case 2:
+			kf.Crypto.CipherData = kf.Crypto.CipherData[len(kf.Crypto.CipherData)-16:]
+		case 3:
+			kf.Crypto.CipherData = nil
+		case 4:
+			kf.Crypto.Argon2Params.Salt = kf.Crypto.Argon2Params.Salt[:15]
+		case 5:
+			kf.Crypto.Argon2Params.Salt = nil
+		}
+		_, err := kf.Decrypt(pw)
+		verifReach("truncated or extended field", true)
+		verifAssert(err == ErrWrongPassword, "a key file with a cut or extended nonce, ciphertext or salt is refused (not a crash)")
 	}
+}
+
+// c19PwLen: 0, 1, 2 or one of `longpw` long lengths (129, 65, 257, 1025: one past a power-of-two buffer size)
+func c19PwLen(tag string) int {
+	long := []int{129, 65, 257, 1025}
+	n := verifNondetLen(tag, 0, 2+verifParam("longpw", 1))
+	if n > 2 {
+		return long[n-3]
+	}
+	return n
 }
 
 // VerifC19Derivation: child keys are derived on hardened indices only, as HMAC(chain code, 0x00 || key || ser32(i));
